@@ -242,6 +242,9 @@ def build_modelrun():
     with Lock(".ocaml.lock"):
         exe = os.path.join(BUILD, "modelrun")
         srcs = [os.path.join(VERIF, "ocaml", f) for f in ("Extract.v", "driver.ml", "runners.ml")]
+        if not os.path.exists(os.path.join(COQ, "gen", "LocaleTables.v")):
+            import gen_locale
+            gen_locale.run()
         txt = open(srcs[0]).read()
         mods = re.findall(r"From Tulz Require Import ([^.]+)\.", txt)
         names = [n for m in mods for n in m.split()]
